@@ -328,6 +328,7 @@ def finish(cases, have_driver, errors, strict=True):
         model = [None] * len(cases)
     for c, m in zip(cases, model):
         c['model'] = m if not c.get('pyflags') else None
+        c['model_shadow'] = m
     # cross-check of the harness's reference implementations against the Lean specification
     spec_lines = [(c, s) for c in cases for s in c.get('spec', [])]
     if spec_lines:
@@ -442,9 +443,23 @@ def shrink_case(prop, c, r, budget_s=8.0):
                 return q
         return None
 
+    def wellformed(case):
+        """a candidate must still be a line of the protocol: nothing rejected as malformed by either side, no exception of
+        the harness that the original did not show, and - where there is a model - code and model still differ on it (on a
+        line outside what the oracles were written for, both tend to say the same nonsense)"""
+        real, model = str(case.get('real')), case.get('model_shadow')
+        if 'bad-op' in real or 'bad-line' in real or (model is not None and ('bad-op' in model or 'bad-line' in model)):
+            return False
+        if real.startswith('EXC:') and not str(c.get('real')).startswith('EXC:'):
+            return False
+        if model is not None and c.get('model') is not None and project(c.get('project'), real) == project(c.get('project'), model):
+            return False
+        return True
+
     def still(lines):
-        by = {x['line']: x for x in evaluate(prop, comp, lines, have_driver=False, proj=c.get('project'), strict=False, pyflags=c.get('pyflags'), hashseed=c.get('hashseed'))}
-        return [l in by and failing(by[l]) is not None for l in lines]
+        cs = evaluate(prop, comp, lines, have_driver=True, proj=c.get('project'), strict=False, pyflags=c.get('pyflags'), hashseed=c.get('hashseed'))
+        by = {x['line']: x for x in cs}
+        return [l in by and failing(by[l]) is not None and wellformed(by[l]) for l in lines]
     try:
         line, rounds, tried = shrink.shrink(comp, c['line'], still, budget_s=budget_s)
         if line == c['line']:
